@@ -1,5 +1,5 @@
 CONSTANTS
   MaxMarkers = 0
-  ScopeCfgs = {"none", "no_g", "only_f", "no_meth", "no_K", "only_K"}
+  ScopeCfgs = {"none", "no_g", "only_f", "no_meth", "no_K", "only_K", "no_deep", "only_deep", "no_Inner"}
 SPECIFICATION Spec
 INVARIANT Emit
